@@ -77,8 +77,17 @@ def query_of(p, rng):
             else:
                 s = ""
             parts.append(urllib.parse.quote(k) + "=" + urllib.parse.quote(s))
-        return "&".join(parts)
-    return rng.choice(["", "a=1", "x", "a=1&a=2", "%zz=1", "a[]=1", "=3", "a=b=c", "&&"])
+        q = "&".join(parts)
+        r = rng.random()
+        if r < 0.08 and parts:
+            # characters that are data inside a query string although they look like delimiters: a literal '?', '#'-less, '+', ';'
+            i = rng.randrange(len(parts))
+            parts[i] = parts[i] + rng.choice(["?", "?x=1", "+b", ";c=2", "%3F"])
+            q = "&".join(parts)
+        elif r < 0.12:
+            q = rng.choice(["?", "?" + q, q + "?", q.replace("&", "?", 1)])
+        return q
+    return rng.choice(["", "a=1", "x", "a=1&a=2", "%zz=1", "a[]=1", "=3", "a=b=c", "&&", "?a=1", "a=1?b=2", "a=what?&b=1", "??"])
 
 
 def cfw(o):
